@@ -873,7 +873,7 @@ func caseUncle(h *H, r *hlib.Rng, variant string) {
 		if x.aux == int(types.Scrypt) && len(wh.AuxPow().AuxPow2()) < 32 {
 			sig = "panic:auxpow-section:scrypt-auxpow2-shorter-than-32"
 		} else if containsDivZero(p) {
-			sig = "workshare-div-by-zero:VerifyUncles"
+			sig = panicSig("VerifyUncles", p, x)
 		}
 		h.fail(sig, fmt.Sprintf("VerifyUncles panicked on a powid-%d share (mutation %s): %s", powid, mname, p))
 		return
